@@ -11,27 +11,56 @@ ENTRY = {'coq_dir': 'C09',
  'rule': '`cases` real-time schedules (T = 100/300/500 ms, ops on a 200 ms grid so that every keep-alive deadline is 100 ms away from every poll; '
          '6-14 ops: establish, open, answer, inbound substream, drop substream, shut down the write half of a held substream '
          "(tcp::Substream::poll_shutdown) and keep holding it, other protocols' senders, close, idle polls; keep-alive and non-keep-alive protocol; "
-         'a run whose steps drifted > 45 ms from the grid is repeated) plus 2*cases untimed reference-counting histories, all against a real '
-         'TransportService; compared per op with the extracted model: events, Active->Inactive flips, handle active flags, tracked keys, number of '
-         'armed sleeps, per channel whether a strong sender exists (= the connection task keeps running); plus max(2, cases/8) end-to-end cases: two '
-         'real litep2p nodes over loopback TCP or WebSocket, keep-alive timeout 400/700 ms, a keep-alive user protocol on both opening / holding / '
-         'half-closing / dropping substreams in slots of 300 ms (op at 300k, observation at 300k+200, deadlines 100 ms from both), ping every 100 ms '
-         'as non keep-alive traffic in half of them; observed: whether both applications have been told ConnectionClosed at every observation point; '
-         "predicted by two instances of the Ts model (a node's connection task ends when strong = 0); repeated when a step drifted > 45 ms",
+         'a run whose steps drifted > 45 ms from the grid is repeated) (35 % of them start with two overlapping connections of a peer, activity on '
+         'one, and the primary closing first: promotion) plus 2*cases untimed reference-counting histories, all against a real TransportService; '
+         'compared per op with the extracted model: events, Active->Inactive flips, handle active flags, tracked keys, number of armed sleeps, per '
+         'channel whether a strong sender exists (= the connection task keeps running); plus cases/2 timed and cases/2 untimed MULTI-SERVICE cases '
+         '(kind 5, see C08): 2-3 real TransportServices with DIFFERENT keep-alive timeouts (100/300/500 ms) and mixed keep-alive flags on the same '
+         'connections through real ProtocolSets and real ConnectionHandles; substreams in both directions negotiated over the main or the fallback '
+         'name, the lifetime permit of an inbound substream decided from the real protocols_with_keep_alives() table; observed per op: every '
+         "service's downgrades, handle flags, tracked keys, armed sleeps, whether the connection's command channel still has a strong sender, and "
+         'what ProtocolSet::next() returns (None = the connection task would end); judged on the trace alone: a service downgrades only when ITS '
+         "last activity is >= ITS timeout old and no later, the channel has a strong sender exactly when some service's handle is Active or some "
+         'service holds a keep-alive substream or has an open queued / in flight, next() is None only then; plus max(10, cases/4) name-table cases '
+         '(kind 6): real ProtocolSet::new over protocols with 0-3 fallback names and mixed flags, every negotiable name must carry the flag of its '
+         'protocol; plus max(2, cases/8) end-to-end cases: two real litep2p nodes over loopback TCP or WebSocket, keep-alive timeout 400/700 ms, a '
+         'keep-alive user protocol on both opening / holding / half-closing / dropping substreams in slots of 300 ms (op at 300k, observation at '
+         '300k+200, deadlines 100 ms from both), ping every 100 ms as non keep-alive traffic in half of them; observed: whether both applications '
+         "have been told ConnectionClosed at every observation point; predicted by two instances of the Ts model (a node's connection task ends when "
+         'strong = 0); repeated when a step drifted > 45 ms; plus max(2, cases/10) end-to-end request-response cases: both nodes also run a '
+         'request-response protocol /c09/rr/2 with fallback /c09/rr/1; requests answered at once or held by the responder across one or more '
+         'timeouts; the requester knows both names, or only the legacy name (the RESPONDER accepts over its FALLBACK name), or the responder only '
+         "knows the legacy name (the REQUESTER's outbound substream is negotiated over its fallback name)",
  'trusted_base': ['tokio: sleep does not fire early, mpsc WeakSender::upgrade succeeds iff a strong sender exists, the connection task exits when '
                   'the last strong sender is gone (tcp/connection.rs, not exercised here)',
                   'real time: the tracker reads std::time::Instant; the behavioural tie holds on a 200 ms grid with 100 ms margins (runs with > 45 '
                   'ms drift are repeated), not at the deadline itself',
-                  'atomic-handler abstraction: the service is polled to quiescence after every input; a sleep is armed when first polled'],
+                  'atomic-handler abstraction: the service is polled to quiescence after every input; a sleep is armed when first polled',
+                  "multi-service and end-to-end request-response streams: as for C08's multi-service stream; the harness-as-connection-task "
+                  'transcribes two lines of tcp/connection.rs (keep_alive = table[negotiated name]; lifetime_permit = '
+                  'keep_alive.then(permit.clone())), the end-to-end stream runs the real ones'],
  'level_text': 'Proof (logical time, every timeout T, every history): the recorded last-activity time of a tracked connection equals the time of its '
                'last keep-alive activity per an independent specification, an armed sleep due <= last + T always exists and (feasible histories) '
                'there is exactly one per tracked connection and never more than one per key; a handle is downgraded only when that activity is >= T '
                'old, and at exactly last + T when the step does not jump over a due time; after every poll nothing tracked is overdue and (feasible '
                'histories) every Active handle has an activity less than T ago; substreams of a non-keep-alive protocol move no time and re-activate '
                "nothing; a permit in flight or a live keep-alive substream keeps the channel's strong count positive, and with none of them and no "
-               'other protocol it is zero; half-closing a held substream (write half shut down, still read) releases nothing. Tied to the code by a '
-               'real-time differential run.',
+               'other protocol it is zero; half-closing a held substream (write half shut down, still read) releases nothing. EXACT per connection: '
+               'at the end of every feasible history, for every open connection of a peer (primary, secondary, promoted former secondary) the handle '
+               'is Active IF AND ONLY IF the last keep-alive activity on it is less than T old; a tracked connection has an Active handle; activity '
+               'on one connection leaves the other connection of the peer untouched; after the primary closed, opens count for the former secondary. '
+               'COMPOSITION (coq/Ts/Multi.v, N protocols with own flags and timeouts T_j on shared connections): for every feasible history and '
+               'every open connection, its command channel has NO strong sender left (ProtocolSet::next() returns None, the connection closes) IF '
+               'AND ONLY IF EVERY service has let go: its own last activity is >= its own T_j old, none of its keep-alive substreams lives, none of '
+               'its opens is queued or in flight; each service inside the composition keeps the exact Active <-> recent characterisation with its '
+               'own T_j; all clocks agree. NAME TABLES (coq/Ts/Names.v = ProtocolSet::new): every negotiable name, main and every fallback, is '
+               'classified with the keep-alive flag of its protocol and a fallback is reported under the main name (the own-name lookup of a seeded '
+               'regression is refuted). Tied to the code by real-time differential runs.',
  'level_note': 'Partial for real time: timer accuracy, executor latency and tokio channel semantics are assumptions; the end-to-end stream observes '
                'the close of the real TCP/WebSocket connection task on a 300 ms grid with 100 ms margins (not at the deadline itself; QUIC is not in '
-               'the stream). The single-sleep theorem needs the per-connection FIFO assumption (a counterexample without it is proved).',
+               'the stream). The single-sleep theorem needs the per-connection FIFO assumption (a counterexample without it is proved). The '
+               'end-to-end oracle reads the property per node: the connection may close as soon as ONE endpoint has let go (a node cannot know what '
+               'the remote still holds). Observation, clean tree: a response written by a responder that thereby releases the last permit of an idle '
+               'connection is not flushed before the connection task ends (yamux connection dropped on the None command); the requester sees '
+               'RequestFailed(Rejected(ConnectionClosed)) — not a C09 clause, reported.',
  'assumptions': ["armed sleeps are polled (the protocol's event loop polls the service when woken)", 'time is monotone']}
